@@ -406,7 +406,7 @@ pub struct Witness {
 }
 
 fn pspec(mode: Mode, fin: Fin) -> PuppetSpec {
-    PuppetSpec { mode, late: false, fin, burst: 0, eager_end: false, per_pull: 1, on_stop: None, feedback: None, on_pull: None }
+    PuppetSpec { mode, late: false, fin, burst: 0, eager_end: false, per_pull: 1, on_stop: None, on_stop2: None, feedback: None, on_pull: None }
 }
 
 fn base_spec(topo: Topo, pspecs: Vec<PuppetSpec>, lens: Vec<usize>, probe_specs: Vec<ProbeSpec>) -> CaseSpec {
